@@ -61,6 +61,13 @@ func c03Scenarios(tier string) []*Scenario {
 				}
 			}
 		}
+		// the caller cancels its context once it has what it wanted (`defer cancel()`), then asks for the
+		// metadata: a completed call keeps its headers and trailers, and so does one that delivered a message
+		for _, ret := range []string{"ret:ok", "ret:st:5"} {
+			add(tr, "", RPC{Kind: "bd", Client: []string{"S0", "C", "R*", "X", "H", "T"}, Handler: []string{"r*", "h:a", "s0", "t:c", ret}})
+			add(tr, "", RPC{Kind: "ss", Client: []string{"S0", "C", "R", "X", "H", "R*"}, Handler: []string{"r", "h:a", "s0", "s1", "t:c", ret}})
+			add(tr, "", RPC{Kind: "cs", Client: []string{"S0", "C", "R*", "X", "T", "H"}, Handler: []string{"r*", "h:a", "s0", "t:c", ret}})
+		}
 		// no data at all: headers and trailers still travel
 		for _, h := range [][]string{{"r*", "h:a", "t:c", "ret:ok"}, {"r*", "h:a", "t:c", "ret:st:5"}, {"r*", "H:b", "t:c", "ret:ok"}, {"r*", "t:c", "ret:st:5"}} {
 			add(tr, "", RPC{Kind: "bd", Client: []string{"S0", "C", "H", "R*", "T"}, Handler: h})
@@ -204,11 +211,32 @@ func c03Oracle(sc *Scenario, rec *Rec, s *mc.Sched) []mc.Violation {
 	}
 	// Header() / Trailer() results
 	hi, ti, nrecvErr := 0, 0, 0
+	ri := 0 // index into rr.RecvRes of the next receive result
+	gotMsg := false
 	for _, op := range rpc.Client {
 		switch op {
 		case "R", "R*":
 			nrecvErr++
+			for ri < len(rr.RecvRes) {
+				r := rr.RecvRes[ri]
+				ri++
+				if r == "nil" {
+					gotMsg = true
+				}
+				if op == "R" || r != "nil" || !rpc.serverStreams() {
+					break
+				}
+			}
 		case "H":
+			if hi < len(rr.HeaderMD) && gotMsg && len(rpc.Client2) == 0 {
+				// headers are observable no later than the first response message: once the caller holds a
+				// message, Header() yields them, whatever has happened to the call's context since
+				if rr.HeaderRes[hi] != "nil" {
+					add("Header()-error-after-message", "a response message had been received, Header() returned "+normFinal(rr.HeaderRes[hi]))
+				} else if !mdHas(rr.HeaderMD[hi], ref.HdrKeys) {
+					add("Header()-incomplete-after-message", fmt.Sprintf("a response message had been received, Header() returned %s, want keys %v", appMD(rr.HeaderMD[hi]), ref.HdrKeys))
+				}
+			}
 			if hi < len(rr.HeaderMD) {
 				if rr.HeaderRes[hi] == "nil" && !mdHas(rr.HeaderMD[hi], ref.HdrKeys) && (complete || !cancelled) {
 					add("Header()-incomplete", fmt.Sprintf("Header() returned %s, want keys %v", appMD(rr.HeaderMD[hi]), ref.HdrKeys))
